@@ -241,6 +241,14 @@ impl RawConnectorBuilder {
             left_feat_ids_tmp.push(feat_ids);
         }
 
+        // Without any feature template the number of ids cannot be derived from the rows.
+        if feat_template_size == 0 {
+            return Err(VibratoError::invalid_format(
+                "bigram.right/left",
+                "must contain at least one entry with a feature",
+            ));
+        }
+
         Ok(Self::new(
             right_feat_ids_tmp,
             left_feat_ids_tmp,
